@@ -300,6 +300,11 @@ def parse_rules(s):
     return out
 
 
+def ok_true(res):
+    """the edit requests answer True (documented): anything else is part of the answer"""
+    return "ok" if res is True else "ok returned %r" % (res,)
+
+
 def render_report(r):
     items = []
     for k, v in r.created_webentities.items():
@@ -483,13 +488,11 @@ class Impl(object):
         if op == "addrule":
             return render_report(t.add_webentity_creation_rule(unx_arg(w[1]), RULES[w[2]]))
         if op == "rmrule":
-            t.remove_webentity_creation_rule(unx_arg(w[1]))
-            return "ok"
+            return ok_true(t.remove_webentity_creation_rule(unx_arg(w[1])))
         if op == "create":
             return render_report(t.create_webentity(unx_arg_iter(w[1])))
         if op == "delete":
-            t.delete_webentity(int(w[1]), unx_arg_iter(w[2]))
-            return "ok"
+            return ok_true(t.delete_webentity(int(w[1]), unx_arg_iter(w[2])))
         if op == "pokeid":
             # the id counter of the header set by hand, through the header's own write: an index that has issued that many ids
             h = self.t.lru_trie.header
@@ -498,27 +501,22 @@ class Impl(object):
             return "ok"
         if op == "deleteu":
             self.du_calls = getattr(self, "du_calls", 0) + 1
-            t.delete_webentity([None, 0, 7][self.du_calls % 3], unx_arg_iter(w[1]), check_for_corruption=False)
-            return "ok"
+            return ok_true(t.delete_webentity([None, 0, 7][self.du_calls % 3], unx_arg_iter(w[1]), check_for_corruption=False))
         if op == "addruleram":
             return render_report(t.add_webentity_creation_rule(unx_arg(w[1]), RULES[w[2]], write_in_trie=False))
         if op == "addprefix":
-            t.add_prefix_to_webentity(unx_arg(w[1]), int(w[2]))
-            return "ok"
+            return ok_true(t.add_prefix_to_webentity(unx_arg(w[1]), int(w[2])))
         if op == "rmprefix":
             if w[2] == "-":
-                t.remove_prefix_from_webentity(unx_arg(w[1]))
-            else:
-                t.remove_prefix_from_webentity(unx_arg(w[1]), int(w[2]))
-            return "ok"
+                return ok_true(t.remove_prefix_from_webentity(unx_arg(w[1])))
+            return ok_true(t.remove_prefix_from_webentity(unx_arg(w[1]), int(w[2])))
         if op == "moveprefix":
-            # the explicit alias for about half of the calls (chosen by the value, so replays agree)
-            mv = t.move_prefix_to_webentity_from_webentity if len(w[1]) % 2 else t.move_prefix_to_webentity
+            # the explicit alias for every other call
+            self.mv_calls = getattr(self, "mv_calls", 0) + 1
+            mv = t.move_prefix_to_webentity_from_webentity if self.mv_calls % 2 else t.move_prefix_to_webentity
             if w[3] == "-":
-                mv(unx_arg(w[1]), int(w[2]))
-            else:
-                mv(unx_arg(w[1]), int(w[2]), int(w[3]))
-            return "ok"
+                return ok_true(mv(unx_arg(w[1]), int(w[2])))
+            return ok_true(mv(unx_arg(w[1]), int(w[2]), int(w[3])))
         if op == "addpage":
             return render_report(t.add_page(unx_arg(w[1]), **kw("add_page", crawled=(w[2] == "1"))))
         if op == "addpages":
